@@ -143,6 +143,9 @@ Expected(st, c, Own) ==
          [] op = "write_lines" -> IF LinesData(c) = <<>> THEN R(st, ROk(Unit)) ELSE Op_write_all(st, Own, p, LinesData(c) \o <<NL>>)
          [] op = "append_lines" -> IF LinesData(c) = <<>> THEN R(st, ROk(Unit)) ELSE Op_append_all(st, Own, p, LinesData(c) \o <<NL>>)
          [] op = "append_line" -> IF c.ls = <<>> \/ c.ls[1] = <<>> THEN R(st, ROk(Unit)) ELSE Op_append_all(st, Own, p, c.ls[1] \o <<NL>>)
+         \* read handles (C06 / C07): opening one is a read that hands nothing back yet; reading from it and dropping it change nothing
+         [] op = "hr_open" -> (IF IsLink(st.fs, p) THEN R(st, RAny) ELSE LET o == Op_read(st, p) IN IF o.res.o = "ok" THEN R(st, ROk(Unit)) ELSE o)
+         [] op \in {"hr_read", "hr_drop"} -> R(st, RAny)
          [] op = "h_open" -> Op_h_open(st, Own, p, HasFlag(c, "a"))
          [] op = "h_write" -> Op_h_write(st, p)
          [] op = "h_flush" -> Op_h_sync(st, p, c.d, HasFlag(c, "c"))
